@@ -129,6 +129,8 @@ def replay_chunk(ctx, texts):
             continue
         cfgA, cfgB, cut = dict(s["cfgA"]), dict(s["cfgB"]), s["cut"]
         cfgA["tick"] = cfgB["tick"] = ctx.get("tick", 1)
+        # every other pair: the Transmitter first served another environment configured with a different latency
+        cfgA["reuse_transmitter"] = cfgB["reuse_transmitter"] = (len(cfgA["events"]) + len(cfgB["events"])) % 2 == 0
         replay_env._TICK[0] = ctx.get("tick", 1)
         histA, histB = list(s["histA"]), list(s["histB"])
         wa = replay_env.World(cfgA, True, seed=1, extra_features=lambda w: [Obs(w.A, w.B)])
